@@ -360,7 +360,7 @@ func kcOptBytes(b []byte, present bool) string {
 }
 
 func runKeyCrypt(c *hx.Ctx) {
-	cw := c.NewCaseWriter("From NV Require Import corr.KeyCrypt_corr.", "KeyCrypt_corr.case", "KeyCrypt_corr.check_case", 700)
+	cw := c.NewCaseWriter("From NV Require Import corr.KeyCrypt_corr.", "KeyCrypt_corr.case", "KeyCrypt_corr.check_case", 40)
 	nonceLen, _ := kcGcmSizes()
 
 	// (1) plain key PEM: every unmarshal function x every banner x every length
@@ -374,7 +374,7 @@ func runKeyCrypt(c *hx.Ctx) {
 	for fi, fn := range fns {
 		for _, bn := range banners {
 			for l := 0; l <= 70; l++ {
-				if l > 2 && l < 30 && l%7 != 0 {
+				if l > 1 && l < 31 || l > 33 && l < 63 || l > 66 && l < 70 {
 					continue
 				}
 				key := c.RandBytes(l)
@@ -709,20 +709,26 @@ func runKeyCrypt(c *hx.Ctx) {
 			if tr.pemOK {
 				off, del, ins = kcEdit(body0, tr.body)
 			}
-			lits = append(lits, hx.Tuple(kcOptBytes(tr.pass, tr.pass != nil), kcOptStr(tr.banner), hx.Bool(tr.pemOK),
-				hx.Tuple(hx.N(uint64(off)), hx.N(uint64(del)), hx.Bytes(ins)), hx.N(uint64(hit)), res))
+			lits = append(lits, hx.App("KeyCrypt_corr.T", kcOptBytes(tr.pass, tr.pass != nil), kcOptStr(tr.banner), hx.Bool(tr.pemOK),
+				hx.N(uint64(off)), hx.N(uint64(del)), hx.Bytes(ins), hx.N(uint64(hit)), res))
 			kinds[tr.label]++
-			if len(descs) < 40 || err == nil {
-				descs = append(descs, map[string]any{"label": tr.label, "hit": hit, "opened": err == nil, "edit": []any{off, del, hx.Ints(ins)}})
-			}
+			descs = append(descs, map[string]any{"label": tr.label, "hit": hit, "opened": err == nil, "edit": []any{off, del, hx.Ints(ins)}, "text": string(tr.text)})
 		}
-		cw.Add(hx.App("KeyCrypt_corr.CEnc", hx.N(uint64(cv)), hx.Bytes(key), hx.Bytes(pass), hx.N(uint64(mem)), hx.N(uint64(par)), hx.N(uint64(it)),
-			hx.Str(banner0), hx.Bytes(body0), hx.List(lits)),
-			"container", keyLen == kcKeyLen(cv), map[string]any{"op": "container", "curve": cv, "key_len": keyLen, "pass": hx.Ints(pass), "mem": mem, "par": par, "it": it,
-				"trials": len(lits), "opened": opened, "kinds": kinds, "sample_trials": descs})
+		const chunk = 120 // trials per case: keeps the Coq literals small and the shards balanced
+		for lo := 0; lo < len(lits); lo += chunk {
+			hi := min(lo+chunk, len(lits))
+			d := map[string]any{"op": "container", "curve": cv, "key": hx.Ints(key), "pass": hx.Ints(pass), "mem": mem, "par": par, "it": it,
+				"pem": string(out), "trials": fmt.Sprintf("%d..%d of %d", lo, hi-1, len(lits)), "trial_list": descs[lo:hi]}
+			if lo == 0 {
+				d["opened"], d["kinds"] = opened, kinds
+			}
+			cw.Add(hx.App("KeyCrypt_corr.CEnc", hx.N(uint64(cv)), hx.Bytes(key), hx.Bytes(pass), hx.N(uint64(mem)), hx.N(uint64(par)), hx.N(uint64(it)),
+				hx.Str(banner0), hx.Bytes(body0), hx.List(lits[lo:hi])),
+				"container", keyLen == kcKeyLen(cv), d)
+		}
 	}
 	cw.Meta("skipped_expensive_trials", skipped)
-	cw.Close("exhaustive: 4 unmarshal functions x 14 banners x key lengths {0,1,2,7,14,21,28,30..70}; 4 marshal functions x 3 curves; " +
+	cw.Close("exhaustive: 4 unmarshal functions x 14 banners x key lengths {0,1,31,32,33,63..66,70}; 4 marshal functions x 3 curves; " +
 		"then per encrypted container (both curves alternating, random key/passphrase, Argon2 memory 8..31 KiB, 1..3 lanes, 1..2 passes; 30% keys of a wrong length): " +
 		"the output itself, 5-7 other passphrases, every other banner, ~55 per-field alterations, ~15 re-encodings that keep every field, " +
 		"every byte position of the protobuf body x 2 values, every byte position of the PEM text, 12 deletions/insertions/truncations; " +
